@@ -35,8 +35,14 @@ VALID.append("subroutine ok5\n  y = tan(z) + abs(w)\nend subroutine ok5\nsubrout
 INVALID.append("module m5\n  integer :: sin\ncontains\n  subroutine a5\n    integer :: tan\n  end subroutine b5\nend module m5\n")
 INVALID.append("subroutine s6\n  real :: tan\n  oops:\nend subroutine s6\n")
 VALID.append("program p7\n  x = sin(1.0) + tan(2.0)\nend program p7\n")
+# keyword=value lists whose admissible keywords differ between the standards (class-level
+# tables that a parse under one standard must not leave changed for the other)
+VALID.append("program p8\n  open (unit = 10, file = 'f.dat', status = 'old')\n  allocate (a(10), stat = ierr)\n"
+             "  type t8\n    real, pointer :: v(:)\n  end type t8\nend program p8\n")
+VALID.append("program p9\n  open (newunit = lun, file = 'f.dat')\n  allocate (a, mold = b)\n  error stop\nend program p9\n")
+VALID_F08_ONLY.add(6)
 
-LETTERS = ["c03", "c08", "v0", "v1", "v2", "v3", "v4", "i0", "i1", "i2", "i3", "i4", "i5", "i6"]
+LETTERS = ["c03", "c08", "v0", "v1", "v2", "v3", "v4", "v5", "v6", "i0", "i1", "i2", "i3", "i4", "i5", "i6"]
 
 
 def _table_names(txt):
@@ -176,7 +182,7 @@ def run_case(case):
 def cases(tier, seed, refs):
     out = []
     maxlen = 3 if tier != "thorough" else 4
-    finals = [("f2003", "v1"), ("f2008", "v0"), ("f2008", "v1"), ("f2003", "v2"), ("f2008", "i0"), ("f2003", "i2"), ("f2008", "v4"), ("f2003", "v4")]
+    finals = [("f2003", "v1"), ("f2008", "v0"), ("f2008", "v1"), ("f2003", "v2"), ("f2008", "i0"), ("f2003", "i2"), ("f2008", "v4"), ("f2003", "v4"), ("f2003", "v6"), ("f2003", "v5"), ("f2008", "v6"), ("f2003", "v6")]
     rng = random.Random(seed)
     k = 0
     for n in range(0, maxlen + 1):
